@@ -20,7 +20,10 @@ void *_dispatch_object_alloc(const void *vtable, size_t size)
 	return &H_out[H_allocs++];
 }
 void dispatch_retain(dispatch_object_t o) { H_retains_total++; if (o._do == (void *)H_watch) H_watch_retains++; }
-void dispatch_release(dispatch_object_t o) { if (o._do == (void *)H_watch) H_watch_releases++; }
+#ifndef H_RELEASE_HOOK
+#define H_RELEASE_HOOK(o) ((void)0)
+#endif
+void dispatch_release(dispatch_object_t o) { H_RELEASE_HOOK(o); if (o._do == (void *)H_watch) H_watch_releases++; }
 static inline void _dispatch_retain(dispatch_object_t o) { H_retains_total++; if (o._do == (void *)H_watch) H_watch_retains++; }
 #define DATA_GHOST H_allocs, __CPROVER_object_whole(H_alloc_size), H_retains_total, H_watch_retains, H_watch_releases
 /* well-formedness of a leaf / a composite over leaves (the invariants documented at the top of data.c) */
